@@ -340,6 +340,12 @@ func exhaustiveC01(thorough bool, emit func(C01Case) bool) {
 		}
 	}
 	// multi-byte tokens at the start and inside of names and sequences, first and later records
+	// a delimiter next to every other byte, inside and across machine words of a name
+	if !bytePairFields(">;|@+ ", "\r\n", func(v gen.B) bool {
+		return emit(C01Case{Recs: []FastaRec{{Name: v, Seq: gen.Lit([]byte("ACGT"))}, {Name: gen.B("second"), Seq: gen.Lit([]byte("GG"))}}})
+	}) {
+		return
+	}
 	// twin records: names / sequences of equal length that differ in one byte, in one stream
 	if !twinFields(func(a, b gen.B) bool {
 		return emit(C01Case{Recs: []FastaRec{{Name: a, Seq: gen.Lit(a)}, {Name: b, Seq: gen.Lit(a)}, {Name: a, Seq: gen.Lit(b)}, {Name: b, Seq: gen.Lit(b)}, {Name: a, Seq: gen.Lit(a)}}})
